@@ -4,6 +4,7 @@ import (
 	"context"
 	"crypto/sha256"
 	"fmt"
+	"sync"
 
 	"github.com/attestantio/go-eth2-client/api"
 	"github.com/attestantio/go-eth2-client/spec/altair"
@@ -38,11 +39,59 @@ import (
 //	headEvent  controller.HandleHeadEvent on the head-event subscription's
 //	           goroutine: VerifySyncCommitteeMessages -> GetDataUsedForSlot(slot-1),
 //	           then RemoveHistoricDataUsedForSlotVerification(slot).
+// scmCrashSig: on a tree where the slot records are read without the lock the
+// overlap of a head event with a message job can abort the process (Go's
+// "concurrent map read and map write").  While that is a listed open finding
+// the overlap is excluded by construction - the record lookup and Message are
+// serialised by a lock of the harness - because a dead shard cannot be counted
+// as a known finding.  The race reports of the same root cause are listed
+// separately; everything else is searched as usual.
+const scmCrashSig = "fatal:concurrent-map-read-and-map-write:services/synccommitteemessenger/standard.(*Service).GetDataUsedForSlot"
+
+// guardedMessenger is what the controller (or the scm world) talks to.
+type guardedMessenger struct {
+	inner *standardmessenger.Service
+	guard bool
+	mu    sync.Mutex
+}
+
+func (g *guardedMessenger) Prepare(ctx context.Context, duty *synccommitteemessenger.Duty) error {
+	return g.inner.Prepare(ctx, duty)
+}
+
+func (g *guardedMessenger) Message(ctx context.Context, duty *synccommitteemessenger.Duty) ([]*altair.SyncCommitteeMessage, error) {
+	if g.guard {
+		g.mu.Lock()
+		defer g.mu.Unlock()
+	}
+	return g.inner.Message(ctx, duty)
+}
+
+func (g *guardedMessenger) GetDataUsedForSlot(slot phase0.Slot) (synccommitteemessenger.SlotData, bool) {
+	if g.guard {
+		g.mu.Lock()
+		defer g.mu.Unlock()
+	}
+	return g.inner.GetDataUsedForSlot(slot)
+}
+
+func (g *guardedMessenger) RemoveHistoricDataUsedForSlotVerification(slot phase0.Slot) {
+	g.inner.RemoveHistoricDataUsedForSlotVerification(slot)
+}
+
+func newGuardedMessenger(inner *standardmessenger.Service) *guardedMessenger {
+	g := &guardedMessenger{inner: inner, guard: ev.IsKnown(scmCrashSig)}
+	if g.guard {
+		ev.KnownHit(scmCrashSig)
+	}
+	return g
+}
+
 type scmWorld struct {
 	sc     *Scenario
 	clock  *clock
 	accts  *fixedAccounts
-	msgr   *standardmessenger.Service
+	msgr   *guardedMessenger
 	agg    *standardaggregator.Service
 	nVals  uint64
 	base   uint64
@@ -153,16 +202,20 @@ func buildSCMServices(clk *clock, accts *fixedAccounts, spe uint64) (*standardme
 	return msgr, agg, nil
 }
 
-func (w *scmWorld) newDuty(slot uint64) *synccommitteemessenger.Duty {
-	indices := make(map[phase0.ValidatorIndex][]phase0.CommitteeIndex, w.nVals)
-	for v := uint64(0); v < w.nVals; v++ {
+func newSyncDuty(accts *fixedAccounts, nVals uint64, slot uint64) *synccommitteemessenger.Duty {
+	indices := make(map[phase0.ValidatorIndex][]phase0.CommitteeIndex, nVals)
+	for v := uint64(0); v < nVals; v++ {
 		indices[phase0.ValidatorIndex(v)] = []phase0.CommitteeIndex{phase0.CommitteeIndex(v), phase0.CommitteeIndex(v + 8)}
 	}
 	d := synccommitteemessenger.NewDuty(phase0.Slot(slot), indices)
-	for v := uint64(0); v < w.nVals; v++ {
-		d.SetAccount(phase0.ValidatorIndex(v), w.accts.accts[v])
+	for v := uint64(0); v < nVals; v++ {
+		d.SetAccount(phase0.ValidatorIndex(v), accts.accts[v])
 	}
 	return d
+}
+
+func (w *scmWorld) newDuty(slot uint64) *synccommitteemessenger.Duty {
+	return newSyncDuty(w.accts, w.nVals, slot)
 }
 
 func buildSCM(sc *Scenario) (world, error) {
@@ -172,11 +225,11 @@ func buildSCM(sc *Scenario) (world, error) {
 	}
 	w.clock = newClock(32, w.base)
 	w.accts = newFixedAccounts(int(w.nVals))
-	var err error
-	w.msgr, w.agg, err = buildSCMServices(w.clock, w.accts, 32)
+	msgr, agg, err := buildSCMServices(w.clock, w.accts, 32)
 	if err != nil {
 		return nil, err
 	}
+	w.msgr, w.agg = newGuardedMessenger(msgr), agg
 	// history of earlier slots (sequential)
 	for i := uint64(0); i < sc.P["pre"]; i++ {
 		slot := w.base - sc.P["pre"] + i
